@@ -81,10 +81,16 @@ class FsSim:
             st['entries'][name] = ('sub', t)
 
     # ---- to disk
-    @staticmethod
-    def _dump(mapping, fmt):
+    # a YAML file that defines nothing, in every spelling (zero bytes, only comments -- what a generated sample looks like --
+    # a bare document marker, blank lines); which one is written depends on the file's synthetic time stamp
+    EMPTY_YAML = ['', '# every default stands: nothing is overridden here\n', '---\n', '\n\n', '# c\n---\n# d\n', '--- {}\n']
+
+    @classmethod
+    def _dump(cls, mapping, fmt, salt=0):
         if fmt == 'yaml':
-            return yaml.safe_dump(mapping, default_flow_style=False) if mapping else ''
+            if not mapping:
+                return cls.EMPTY_YAML[salt % len(cls.EMPTY_YAML)]
+            return ('# a comment line\n' if salt % 3 == 1 else '') + yaml.safe_dump(mapping, default_flow_style=False)
         return json.dumps(mapping)
 
     def sync(self):
@@ -95,7 +101,7 @@ class FsSim:
         elif self.symlink_main:
             real = '%s.rev%d' % (p, self.main[0])
             with open(real, 'w') as f:
-                f.write(self._dump(self.main[1], self.main[2]))
+                f.write(self._dump(self.main[1], self.main[2], self.main[0]))
             os.utime(real, (self.main[0] / SCALE, self.main[0] / SCALE))
             tmp = p + '.lnk'
             if os.path.lexists(tmp):
@@ -106,7 +112,7 @@ class FsSim:
             if os.path.islink(p):
                 os.remove(p)
             with open(p, 'w') as f:
-                f.write(self._dump(self.main[1], self.main[2]))
+                f.write(self._dump(self.main[1], self.main[2], self.main[0]))
             os.utime(p, (self.main[0] / SCALE, self.main[0] / SCALE))
         for d, st in self.dstate.items():
             dp = os.path.join(self.root, d)
@@ -129,7 +135,7 @@ class FsSim:
                     os.utime(q, (e[1] / SCALE, e[1] / SCALE))
                 else:
                     with open(q, 'w') as f:
-                        f.write(self._dump(e[2], e[3]))
+                        f.write(self._dump(e[2], e[3], e[1]))
                     os.utime(q, (e[1] / SCALE, e[1] / SCALE))
             os.utime(dp, (st['mtime'] / SCALE, st['mtime'] / SCALE))
 
